@@ -632,9 +632,83 @@ def formulate_amplitude_only(reaction, align: str):
     return NoAlignment().formulate_amplitude(reaction), reaction
 
 
+# ============================================================================ helicity-set histories
+# Reactions that share topology and particles but differ in their HELICITY SETS (what qrules generates when
+# the helicities of a state are given as a list, e.g. a J/psi from e+e-: [-1, +1]), formulated one after the
+# other in ONE process: the aligned amplitude sums over the helicities collected from the reaction's
+# transitions, so everything that remembers an aligned amplitude must tell such reactions apart.
+
+def restrict_reaction(reaction, allowed: dict):
+    """the reaction with those transitions only in which every outer state `e` of `allowed` has a doubled spin
+    projection in `allowed[e]` (same topology, same particles); None if no transition is left"""
+    from qrules.transition import ReactionInfo
+
+    if not allowed:
+        return reaction
+    keep = [t for t in reaction.transitions
+            if all(int(2 * Fraction(t.states[e].spin_projection)) in pool for e, pool in allowed.items())]
+    if not keep:
+        return None
+    return ReactionInfo(transitions=keep, formalism=reaction.formalism)
+
+
+def fresh_family(reaction, k: int):
+    """the same reaction with the initial-state mass shifted by k * 1e-7 (relative): a reaction object this
+    process has not formulated before in any variant, so that the FIRST step of a history is a fresh formulation"""
+    t = reaction.transitions[0]
+    (i0,) = t.initial_states
+    p = t.states[i0].particle
+    return replace_particle(reaction, p.name, mass=p.mass * (1 + 1e-7 * k))
+
+
+def helicity_subsets(obs: list[int]) -> list[tuple[str, list[int]]]:
+    """proper non-empty subsets of an observed pool (doubled projections): without 0 (e+e- -> J/psi), one
+    extreme only, 0 only, without the largest"""
+    out = []
+    if 0 in obs and len(obs) >= 3:
+        out.append(("no0", [x for x in obs if x != 0]))
+    out.append(("max", [max(obs)]))
+    out.append(("min", [min(obs)]))
+    if 0 in obs:
+        out.append(("zero", [0]))
+    if len(obs) >= 3:
+        out.append(("nomax", [x for x in obs if x != max(obs)]))
+    seen, res = set(), []
+    for name, s in out:
+        if tuple(s) not in seen and 0 < len(s) < len(obs):
+            seen.add(tuple(s))
+            res.append((name, s))
+    return res
+
+
+def helicity_histories(infos, rng) -> list[list[dict]]:
+    """histories (lists of `allowed` dicts, {} = the reaction as it is) for one base reaction: for every outer
+    state with >= 2 observed projections restricted-then-complete and complete-then-restricted, two different
+    subsets of the same state one after the other, and subsets of two different states (initial vs final, final
+    vs final) one after the other. The first history of the initial state always drops projection 0 if it can."""
+    spinful = [(e, obs) for e, _, _, obs in infos if len(obs) >= 2]
+    hist = []
+    for e, obs in spinful:
+        subs = helicity_subsets(obs)
+        hist.append([{e: subs[0][1]}, {}])
+        hist.append([{}, {e: rng.choice(subs)[1]}])
+        if len(subs) >= 2:
+            a, b = rng.sample(subs, 2)
+            hist.append([{e: a[1]}, {e: b[1]}, {}])
+    if len(spinful) >= 2:
+        (e1, o1), (e2, o2) = rng.sample(spinful, 2)
+        a, b = rng.choice(helicity_subsets(o1))[1], rng.choice(helicity_subsets(o2))[1]
+        hist.append([{e1: a}, {e2: b}, {e1: a, e2: b}, {}])
+    return hist
+
+
+def allowed_label(allowed: dict) -> str:
+    return "full" if not allowed else ";".join(f"{e}in{','.join(map(str, p))}" for e, p in sorted(allowed.items()))
+
+
 # ============================================================================ T2b: skeleton extraction
 
-GREEK = ("lambda", "mu", "nu", "xi", "alpha", "beta", "gamma")
+GREEK =("lambda", "mu", "nu", "xi", "alpha", "beta", "gamma")
 
 
 class ExtractionError(Exception):
@@ -961,9 +1035,19 @@ def random_parameters(model, rng):
     return params
 
 
-def numeric_case(case, reaction, seed_rng, n_events: int, robust: bool = True, helicity_couplings: bool = False):
-    """intensities of the five models of one reaction at the same events and couplings"""
+def numeric_case(case, reaction, seed_rng, n_events: int, robust: bool = True, helicity_couplings: bool = False,
+                 prelude=()):
+    """intensities of the five models of one reaction at the same events and couplings. `prelude`: reactions
+    whose five models are formulated first, in the same process (a history; their models are not evaluated)"""
     import numpy as np
+
+    for earlier in prelude:
+        n_fin = len(outer_ids(earlier)) - 1
+        for align in ["none", "axis"] + (["dpd1", "dpd2", "dpd3"] if n_fin == 3 else []):
+            try:
+                formulate(earlier, align, robust, helicity_couplings)
+            except Exception:  # noqa: BLE001, S110 - only the models of `reaction` are judged here
+                pass
 
     ids = outer_ids(reaction)
     finals = ids[1:]
@@ -1231,6 +1315,80 @@ class C05Property:
                 syn_compared += 1
 
         lap("synthetic skeletons")
+        # helicity-set histories: variants of ONE reaction (same topology, same particles, different helicity
+        # sets of an initial or final state) formulated one after the other in this process; the skeleton of
+        # EVERY step is compared with the Lean model (a pure function of the described reaction), and the raw
+        # expression of a variant must not depend on its position in a history
+        hist_rng = common.rng_for(PROP_ID, seed, "helicity-histories")
+        hist_bases = [(c["name"], r, k) for c, r, k in cases if k["single_topology"] and k["n_final"] == 3]
+        hist_bases += [(c["name"], r, k) for c, r, k in cases if k["single_topology"] and k["n_final"] > 3]
+        syn_hist = sorted(n for n, (_, c, _, _, _) in syn_reactions.items()
+                          if c["single_topology"] and max(c["spins2"]) >= 1)
+        n_syn_hist = len(syn_hist) if thorough else 10
+        # the quick tier always has synthetic bases with a spin-1 initial state whose pool contains 0
+        with_zero = [n for n in syn_hist if 0 in state_infos(syn_reactions[n][0])[0][3] and syn_reactions[n][1]["spins2"][0] == 2]
+        picked = hist_rng.sample(with_zero, min(3, len(with_zero)))
+        picked += hist_rng.sample([n for n in syn_hist if n not in picked], max(0, min(n_syn_hist, len(syn_hist)) - len(picked)))
+        hist_bases += [(n, syn_reactions[n][0], syn_reactions[n][1]) for n in picked]
+        hist_meta = {}       # history key -> description (for replays and the forced oracle)
+        hist_raw = {}        # (base, variant label, alignment) -> {digest of the raw expression: [where seen]}
+        hist_stats = {"bases": len(hist_bases), "histories": 0, "steps": 0, "skeletons": 0, "kinds": {}}
+        family = 0
+        import hashlib as _hashlib
+
+        import sympy as _sp
+        for base_name, base, cls in hist_bases:
+            aligns = ["axis"] + (["dpd1", "dpd2", "dpd3"] if cls["n_final"] == 3 else [])
+            for h_index, steps in enumerate(helicity_histories(state_infos(base), hist_rng)):
+                family += 1
+                fam = fresh_family(base, family)
+                hist_stats["histories"] += 1
+                kind = "->".join("full" if not a else "restricted" for a in steps)
+                hist_stats["kinds"][kind] = hist_stats["kinds"].get(kind, 0) + 1
+                for step, allowed in enumerate(steps):
+                    variant_reaction = restrict_reaction(fam, allowed)
+                    if variant_reaction is None:
+                        continue  # the two restrictions exclude each other
+                    hist_stats["steps"] += 1
+                    label = allowed_label(allowed)
+                    hname = f"hist:{base_name}#{h_index}.{step}:{label}"
+                    hist_meta[hname] = {"base": base_name, "family": family, "steps": [dict(a) for a in steps], "step": step,
+                                        "history": [allowed_label(a) for a in steps[:step + 1]],
+                                        "how": "tools.props.C05: restrict_reaction(fresh_family(base, family), steps[i]) for i <= step, "
+                                               "each formulated with SpinAlignment.formulate_amplitude for axis, dpd1..3, in this order, in one process"}
+                    for align in aligns:
+                        k = (hname, align)
+                        rr = None
+                        try:
+                            with time_limit(30):
+                                expr, rr = formulate_amplitude_only(variant_reaction, align)
+                                digest = _hashlib.sha1(_sp.srepr(expr).encode()).hexdigest()
+                                hist_raw.setdefault((base_name, label, align), {}).setdefault(digest, []).append(hname)
+                                skel_real[k] = extract_skeleton(expr, rr, align, amplitude_only=True)
+                        except CaseTimeout as e:
+                            timeouts.append({"phase": "helicity history", "reaction": hname, "alignment": align, "detail": str(e)})
+                            continue
+                        except ExtractionError as e:
+                            skel_real[k] = [f"unextractable: {e}"]
+                        except Exception as e:  # noqa: BLE001
+                            formulate_errors[k] = "".join(traceback.format_exception_only(type(e), e))[-400:]
+                            skel_real[k] = ["error"]
+                        if rr is None:
+                            if align.startswith("dpd"):
+                                continue
+                            rr = variant_reaction
+                        requests.append(skeleton_request(rr, align, variant))
+                        plan.append(("skel", k, True))
+                        hist_stats["skeletons"] += 1
+        position_dependent = {f"{b} [{lab}] {al}": v for (b, lab, al), v in hist_raw.items() if len(v) > 1}
+        hist_stats["variants_seen_at_several_positions"] = sum(1 for v in hist_raw.values() if sum(len(w) for w in v.values()) > 1)
+        hist_stats["position_dependent"] = len(position_dependent)
+        chk.info("helicity_set_histories", hist_stats)
+        for what, v in list(position_dependent.items())[:3]:
+            chk.broken_correspondence("aligned amplitude of a reaction depends on what was formulated before",
+                                      {"variant": what, "expressions": {d: w[:4] for d, w in v.items()}})
+
+        lap("helicity-set histories")
         try:
             out = common.lean_run(DRIVER, "\n".join(requests) + "\n")
         except common.LeanRunError as e:
@@ -1240,6 +1398,7 @@ class C05Property:
         pos = 0
         range_dist = {"ok": 0, "ValueError": 0, "other": 0}
         skel_mismatch = 0
+        hist_mismatches = []
         range_mismatch = 0
         for item in plan:
             if pos >= len(lines) or (pos == len(lines) - 1 and lines[pos] == ""):
@@ -1295,6 +1454,9 @@ class C05Property:
                 if real != lean:
                     skel_mismatch += 1
                     diff = {"only_real": [l for l in real if l not in lean][:6], "only_lean": [l for l in lean if l not in real][:6]}
+                    if key[0] in hist_meta:
+                        diff["history"] = hist_meta[key[0]]
+                        hist_mismatches.append(key)
                     chk.broken_correspondence("alignment skeleton", {"reaction": key[0], "alignment": key[1], **diff})
                 elif key == ("lc_pKpi_L1520", "axis"):
                     chk.sample({"skeleton": list(key), "lines": real[:8]})
@@ -1312,8 +1474,8 @@ class C05Property:
         for key, err in formulate_errors.items():
             failing.append((
                 {"class": "formulating an aligned model raised", "alignment": key[1]},
-                {"input": {"reaction": key[0], "alignment": key[1], "corpus": str(CORPUS)}, "observed": err,
-                 "expected": "a HelicityModel"}))
+                {"input": {"reaction": key[0], "alignment": key[1], "corpus": str(CORPUS), "history": hist_meta.get(key[0])},
+                 "observed": err, "expected": "a HelicityModel"}))
 
         lap("lean driver + comparison")
         # ---- histories on ONE builder vs fresh builders
@@ -1431,8 +1593,54 @@ class C05Property:
                                                                "options": syn_opts.get(n, {}),
                                                                "how": "tools.props.C05.synthetic_reaction(synthetic_topologies()[key], types, **options)"}},
                          reaction, cls))
+        # helicity-set histories (oracle on the LAST model of a history): the five models of a restricted variant
+        # are formulated first, then those of the complete reaction (a fresh family: this process has not seen
+        # the object before), whose aligned intensities must equal the unaligned one
+        hist_oracle_pool = {
+            "initial": [("jpsi_gpi0pi0_f0", -1), ("lc_pKpi_Kstar", -1), ("lc_pKpi_L1520", -1), ("psi2S_jpsipipi_f0", -1)],
+            "final": [("lc_pKpi_Kstar", 0), ("lc_nuKpi_Kstar", 0), ("jpsi_gpi0pi0_f0", 0), ("psi2S_jpsipipi_f0", 0)],
+        }
+        oracle_pick_rng = common.rng_for(PROP_ID, seed, "helicity-history-oracle")
+        hist_jobs = []
+        for where, pool_ in hist_oracle_pool.items():
+            for base_name, edge in (pool_ if thorough else oracle_pick_rng.sample(pool_[:3], 1)):
+                c, r, k = by_name[base_name]
+                obs = next(o for e, _, _, o in state_infos(r) if e == edge)
+                subs = helicity_subsets(obs)
+                first = [subs[0]] + ([oracle_pick_rng.choice(subs[1:])] if len(subs) > 1 and thorough else [])
+                hist_jobs.append((c, r, k, [{edge: s_} for _, s_ in first], where))
+        # a history whose skeleton disagreed at a complete step is replayed on the models, cheapest bases first
+        for key in hist_mismatches:
+            meta = hist_meta[key[0]]
+            if meta["steps"][meta["step"]] or meta["step"] == 0 or len(hist_jobs) >= (12 if thorough else 5):
+                continue
+            if meta["base"] in by_name:
+                c, r, k = by_name[meta["base"]]
+                if c["numeric"] != "quick":
+                    continue
+            elif meta["base"] in syn_reactions and cost(meta["base"]) <= 110:
+                r, k = syn_reactions[meta["base"]][0], syn_reactions[meta["base"]][1]
+                c = {"name": meta["base"], "file": None, "synthetic": {"types": list(syn_reactions[meta["base"]][3]),
+                                                                      "topology": syn_reactions[meta["base"]][2],
+                                                                      "options": syn_opts.get(meta["base"], {})}}
+            else:
+                continue
+            if any(j[0]["name"] == c["name"] and j[3] == meta["steps"][:meta["step"]] for j in hist_jobs):
+                continue
+            hist_jobs.append((c, r, k, meta["steps"][:meta["step"]], "skeleton disagreed"))
+        for n_job, (c, r, k, earlier, where) in enumerate(hist_jobs):
+            fam = fresh_family(r, 100000 + n_job)
+            prelude = [x for x in (restrict_reaction(fam, a) for a in earlier) if x is not None]
+            jobs.append(({**c, "name": c["name"] + "[after " + " then ".join(allowed_label(a) for a in earlier) + "]",
+                          "prelude": prelude,
+                          "history": {"restricted_state": where, "formulated_before_in_the_same_process":
+                                      [allowed_label(a) for a in earlier], "base": c["name"], "family": 100000 + n_job,
+                                      "how": "fam = tools.props.C05.fresh_family(reaction, family); for a in steps: formulate(restrict_reaction("
+                                             "fam, {edge: doubled projections}), align) for align in none, axis, dpd1..3; then the five models of fam"}},
+                         fam, k))
+        forced |= {j[0]["name"] for j in jobs if j[0].get("history", {}).get("restricted_state") == "skeleton disagreed"}
         # reactions whose skeleton disagreed come first: they must not fall victim to the time budget
-        jobs.sort(key=lambda j: 0 if j[0]["name"] in forced else 1)
+        jobs.sort(key=lambda j: 0 if j[0]["name"] in forced else (1 if j[0].get("history") else 2))
         oracle_t0 = _time.time()
         skipped_budget = []
         for case, reaction, cls in jobs:
@@ -1449,7 +1657,8 @@ class C05Property:
                 continue
             try:
                 with time_limit(case_cap):
-                    results, _ = numeric_case(case, reaction, rng, n_events, **case.get("options", {}))
+                    results, _ = numeric_case(case, reaction, rng, n_events, prelude=case.get("prelude", ()),
+                                              **case.get("options", {}))
             except CaseTimeout as e:
                 timeouts.append({"phase": "numeric oracle", "reaction": case["name"], "detail": str(e)})
                 entry["skipped"] = f"case {e}"
@@ -1490,6 +1699,7 @@ class C05Property:
                               "corpus_file": f"corpus/C05/{case['file']}.json" if case.get("file") else None,
                               "synthetic": case.get("synthetic"),
                               "substitution": case.get("sub"), "builder_options": case.get("options"),
+                              "history": case.get("history"),
                               "alignment": align, "event_index": i,
                               "seed": seed, "tier": tier},
                     "observed": (float(val[i]) if np.isfinite(val[i]) else repr(float(val[i]))), "expected": float(refv[i]),
@@ -1541,6 +1751,11 @@ class C05Property:
             "skeleton": "every corpus case x {none, axis, dpd1..3 (3-body)} on model.intensity; 399 synthetic reactions "
                         "(all 5^3 type assignments x 3 spectator choices; all ordered placements of one massless spin-1/2 "
                         "vs one massive spin-1 on 3 three-body and 2 four-body topologies) x {axis, dpd1..3} on formulate_amplitude",
+            "helicity_set_histories": "per base reaction (corpus single-topology cases + seeded synthetic ones) and per outer "
+                                      "state with >= 2 observed projections: [subset, full], [full, subset], [subset, other subset, "
+                                      "full]; plus [subset of one state, subset of another, both, full]; each history on a copy with "
+                                      "its own initial-state mass; stream C05:<seed>:helicity-histories",
+            "numeric_histories": [c["name"] for c, _, _ in jobs if c.get("history")],
             "numeric_synthetic": [c["name"] for c, _, _ in jobs if c["name"].startswith("syn")],
             "numeric": f"{n_events} events per reaction, random complex couplings, one PRNG stream ({PROP_ID}:{seed}:oracle)",
         })
@@ -1627,6 +1842,9 @@ MANIFEST = {
         "d^T d = 1 (91 entries, cofactors re-checked by linear_combination). "
         "(6) C05_axis_formulates: with the repaired range every final state's rotation chain is formulated; "
         "C05_witness_formulate_pinned: the pinned guard fails for a massless spin-1/2 final state. "
+        "(8) C05_dpd_pools / C05_dpd_helicity_sets_injective: for every topology, reference subsystem and list of outer "
+        "states the summed and the outer pools of the DPD skeleton are the states' observed helicity sets, so two "
+        "reactions with different helicity sets never share an aligned amplitude (what a cache key must respect). "
         "(7) C05_witness_massless: with the photon pool {-1,+1} an orthogonal rotation mixing projection 0 turns an "
         "unaligned intensity 1 into 0 (decide) - the known finding. "
         "Tie: create_spin_range vs model exhaustively for 2s=-6..20 x flag x argument type; the skeleton extracted "
@@ -1640,11 +1858,20 @@ MANIFEST = {
         "topologies; create_spin_range additionally in a seeded 160-call history (interleaved flags, repeated spins) and "
         "re-probed after the oracle incl. callers that write into the returned list; one builder driven through "
         "alignment sequences (none/axis/DPD 1-3, define_symbols result cleared by the caller) must give the models of "
-        "fresh builders; canonical skeletons identical across PYTHONHASHSEED values in fresh processes; "
+        "fresh builders; HELICITY-SET HISTORIES: variants of one reaction that share topology and particles but "
+        "differ in the helicity set of an initial or final state (without 0 as for a J/psi from e+e-, one extreme, 0 only, "
+        "without the largest) are formulated one after the other in one process (restricted-then-complete, "
+        "complete-then-restricted, two subsets of one state, subsets of two states; every corpus case + 10 seeded "
+        "synthetic ones in the quick tier, all in the thorough tier; axis-angle and DPD 1-3), the skeleton of EVERY step "
+        "must equal the model's (whose pools are the described helicity sets: C05_dpd_pools) and the raw expression of "
+        "a variant must not depend on its position; canonical skeletons identical across PYTHONHASHSEED values in fresh processes; "
         "SymPy's Rotation.D = phase*d*phase checked symbolically. Oracle: intensities of the five real models at the "
         "same physical events and random couplings (1e-9; quick 6 corpus + 4 seeded mixed placements, thorough 12 corpus "
         "incl. spin 3/2, massive spin 1 at depth 1 and 2, 4-body + all 18 three-body mixed placements + 12 more "
-        "synthetic), formulation probe for every case; per-case wall-clock caps and an oracle time budget (skipped "
+        "synthetic; plus, on a fresh copy of a corpus reaction, the five models of the complete reaction AFTER the five "
+        "models of a helicity-restricted variant were formulated in the same process - one initial-state and one "
+        "final-state restriction per seed in the quick tier, eight in the thorough tier - and the replay of any history "
+        "whose skeleton disagreed), formulation probe for every case; per-case CPU-time caps and an oracle time budget (skipped "
         "cases are counted in the evidence). NOT proved: that the numerical angle "
         "values are what the formalism prescribes (irrelevant for one topology: any real angle gives a unitary); "
         "the hypothesis 'complete pools' is forced - DPD with a photon ({-1,+1} observed) is covered by the oracle "
